@@ -22,8 +22,9 @@ ASSUMPTIONS = [
     'oracle: explicit Python loop over multi-indices and snapshots evaluating the basis functions point-wise',
     'data entries in [-1, 1]; basis-function values are O(1)',
     'HOCUR: requested ranks >= number of snapshots (an upper bound of every TT rank of the transformed data tensor); '
-    'reconstruction compared at 1e-7 relative; cases whose unfoldings have singular-value ratios in (1e-13, 1e-4) are '
-    'discarded (ill-conditioned cross approximation)',
+    'reconstruction compared at 1e-7 relative; cases whose unfoldings have singular-value ratios in (1e-13, 1e-4), or whose '
+    'entries span more than nine orders of magnitude (or vanish exactly), are discarded (ill-conditioned cross approximation: a '
+    'sampled cross can be numerically zero)',
 ]
 
 FAMS = ['constant', 'identity', 'monomial', 'legendre', 'sin', 'cos', 'gauss', 'periodic_gauss']
@@ -322,6 +323,9 @@ def body_hocur(case):
     for k in range(1, p + 1):
         sv = np.linalg.svd(want.reshape(int(np.prod(nn[:k])), -1), compute_uv=False)
         assume(sv[0] > 0 and not np.any((sv > 1e-13 * sv[0]) & (sv < 1e-4 * sv[0])))
+    # ... and it starts from a few sampled fibres: entries 1e-16 next to entries of size one (x = 7e-4 under x^4 times x) make a
+    # sampled cross numerically zero although every unfolding has one clean singular value (found by the thorough tier)
+    assume(float(np.min(np.abs(want))) > 1e-9 * float(np.max(np.abs(want))))
     r = case['m'] + case['ranks_extra']
     ranks = [1] + [r] * p + [1] if case['ranks_list'] else r
     if case['ranks_list'] and case.get('reuse_ranks') and case['m'] >= 2:
